@@ -3,3 +3,4 @@ import TinodeVerif.Props.C04
 import TinodeVerif.Props.C20
 import TinodeVerif.Props.C17
 import TinodeVerif.Props.C19
+import TinodeVerif.Props.C12
